@@ -1,4 +1,5 @@
 import MLModel
+import MLGen
 import Driver.Proto
 open ML Proto
 
@@ -108,7 +109,36 @@ def opValidateCalib : P String := do
     | "num" => return .num (← scalar Rat)
     | _ => throw "bad PyNum"
   let mr ← rd; let b ← rd; finish
-  return if validateCalib strat mr b then "ok accepted" else "err valueError"
+  return match MLGen.validateCalibrationParams strat mr b with
+    | .ok () => "ok accepted"
+    | .error _ => "err valueError"
+
+def optInt : P (Option Int) := do
+  let t ← next
+  if t == "none" then return none
+  match t.toInt? with
+  | some n => return some n
+  | none => throw s!"not an integer or none: {t}"
+
+/-- generated scalar decision functions (MLGen/Funcs.lean) -/
+def opGen (op : String) : P String := do
+  match op with
+  | "check_n_components" => do
+      let d ← int; let nc ← optInt; finish
+      return match MLGen.checkNComponents d nc with
+        | .ok k => s!"ok {k}"
+        | .error _ => "err valueError"
+  | "auto_select_init" => do
+      let hc ← bool; let nf ← int; let ns ← int; let nc ← int; let ncl ← int; finish
+      return match MLGen.autoSelectInit hc nf ns nc ncl with
+        | .ok k => s!"ok {k}"
+        | .error _ => "err valueError"
+  | "check_tuple_size" => do
+      let sz ← int; let ts ← optInt; finish
+      return match MLGen.checkTupleSize sz ts with
+        | .ok () => "ok"
+        | .error _ => "err valueError"
+  | _ => throw s!"unknown op {op}"
 
 def dispatch : P String := do
   let op ← next
@@ -117,6 +147,7 @@ def dispatch : P String := do
       opDistance Float op
   | "decision_trip" | "decision_quad" => opClassify Float op
   | "predict_pair" | "predict_trip" | "predict_quad" | "score_frac" | "auc" => opClassify Rat op
+  | "check_n_components" | "auto_select_init" | "check_tuple_size" => opGen op
   | "calib" => opCalib
   | "validate_calib" => opValidateCalib
   | _ => throw s!"unknown op {op}"
